@@ -20,7 +20,7 @@ def InCube (n : Nat) (q : List ℝ) : Prop := q.length = n ∧ ∀ v ∈ q, |v| 
 def LipCube (n : Nat) (f : List ℝ → ℝ) (L : ℝ) : Prop :=
   ∀ a b, InCube n a → InCube n b → |f a - f b| ≤ L * dist2 a b
 
-theorem imageCube_inCube {n : Nat} (hn : 2 ≤ n ∧ n ≤ 5) (m : Nat) (x : ℝ) :
+theorem imageCube_inCube {n : Nat} (hn : Ev.DimOK n) (m : Nat) (x : ℝ) :
     InCube n (imageCube n m x) := by
   obtain ⟨h1, h2⟩ := Num.imageCube_bound hn m x
   exact ⟨h1, fun v hv => (h2 v hv).le⟩
@@ -70,7 +70,7 @@ theorem LipCube.nonneg {n : Nat} (hn : 0 < n) {f : List ℝ → ℝ} {L : ℝ} (
   linarith [abs_nonneg (f (List.replicate n 0) - f (List.replicate n (1/2)))]
 
 /-- every cube point `q` is within half a cell diagonal of the image of `x = __GetXonY q` -/
-theorem exists_curve_point_near {n : Nat} (hn : 2 ≤ n ∧ n ≤ 5) (m : Nat) {q : List ℝ}
+theorem exists_curve_point_near {n : Nat} (hn : Ev.DimOK n) (m : Nat) {q : List ℝ}
     (hq : InCube n q) :
     ∃ x : ℝ, 0 ≤ x ∧ x < 1 ∧ dist2 q (imageCube n m x) ≤ Real.sqrt n / 2^(m+1) := by
   obtain ⟨ds, hv, hlen, hx, _, hil, hclose⟩ := C09_image_of_inverse hn m q hq.1 hq.2
@@ -96,12 +96,12 @@ theorem exists_curve_point_near {n : Nat} (hn : 2 ≤ n ∧ n ≤ 5) (m : Nat) {
       _ = _ := Real.sqrt_sq (by positivity)
 
 /-- a Lipschitz objective is Hölder along the curve, up to the resolution term -/
-theorem lip_along_curve {n : Nat} (hn : 2 ≤ n ∧ n ≤ 5) (m : Nat) {f : List ℝ → ℝ} {L : ℝ}
+theorem lip_along_curve {n : Nat} (hn : Ev.DimOK n) (m : Nat) {f : List ℝ → ℝ} {L : ℝ}
     (hf : LipCube n f L) {x' x'' : ℝ} (h0' : 0 ≤ x') (h1' : x' ≤ 1) (h0'' : 0 ≤ x'')
     (h1'' : x'' ≤ 1) {t : ℝ} (ht : 0 ≤ t) (hd : |x' - x''| ≤ t^n) :
     |f (imageCube n m x') - f (imageCube n m x'')| ≤
       2 * L * Real.sqrt (n + 3) * t + L * Real.sqrt (n + 3) / 2^m := by
-  have hL := hf.nonneg (by omega : 0 < n)
+  have hL := hf.nonneg hn.pos
   have h1 := hf _ _ (imageCube_inCube hn m x') (imageCube_inCube hn m x'')
   have h2 := dist2_imageCube_le_add hn m h0' h1' h0'' h1'' ht hd
   calc _ ≤ L * dist2 (imageCube n m x') (imageCube n m x'') := h1
